@@ -334,6 +334,25 @@ def _result_literals(body, bb, rv, line, depth=0, seen=None):
     return out
 
 
+def _payload_defs(body, op):
+    """[(bb, rv, line)] when the operand is a local that is assigned on several branches (never partially), else None."""
+    if op.get("k") not in ("move", "copy") or op["pl"]["p"] or op["pl"]["l"] <= body.fn["arg_count"]:
+        return None
+    l = op["pl"]["l"]
+    seen = set()
+    while True:
+        ds = body.whole_defs(l)
+        if len(ds) == 1 and ds[0][0] == "stmt" and ds[0][3]["rv"]["k"] == "use" and ds[0][3]["rv"]["op"].get("k") in ("move", "copy") \
+                and not ds[0][3]["rv"]["op"]["pl"]["p"] and ds[0][3]["rv"]["op"]["pl"]["l"] > body.fn["arg_count"] and l not in seen:
+            seen.add(l)
+            l = ds[0][3]["rv"]["op"]["pl"]["l"]
+            continue
+        break
+    if len(ds) < 2 or any(d[0] != "stmt" for d in ds):
+        return None
+    return [(d[1], d[3]["rv"], d[3]["line"]) for d in ds]
+
+
 def exits(ctx, body):
     """All blocks that assign the return place on the way to `return`."""
     out = []
@@ -356,6 +375,19 @@ def exits(ctx, body):
                         ety = rv.get("residual_of") or _err_payload_ty(body, x)
                         out.append({"bb": lb, "kind": "residual", "err_ty": ety, "cause": cause, "try_bb": tb, "try_op": x})
                         continue
+                    if rv["k"] == "agg" and rv.get("what") == "adt" and rv.get("variant") == "Ok" and rv["ops"]:
+                        # `Ok(flag)` with the flag given a value on several branches: one exit per value, at the branch
+                        parts = _payload_defs(body, rv["ops"][0])
+                        if parts:
+                            for (db, drv, dline) in parts:
+                                if drv["k"] == "use":
+                                    e = symex(body, drv["op"])
+                                    dop = drv["op"]
+                                else:
+                                    e = ("expr",)
+                                    dop = None
+                                out.append({"bb": db, "kind": "ok", "value": e, "atoms": body.rv_atoms(drv), "line": dline, "op": dop, "rv": drv, "ret_bb": b})
+                            continue
                     if rv["k"] == "agg" and rv.get("what") == "adt" and rv.get("variant") in ("Ok", "Err"):
                         e = symex(body, rv["ops"][0]) if rv["ops"] else ("const", None)
                         out.append({"bb": lb, "kind": rv["variant"].lower(), "value": e, "atoms": body.atoms(rv["ops"][0]) if rv["ops"] else set(),
@@ -470,6 +502,57 @@ def exits_rule(ctx):
     return out
 
 
+@rule("EXITS-END", floor=2)
+def exits_end(ctx):
+    """run() ends at once when the request queue ends (every handle dropped -> HandleClosed) and when the packet stream
+    ends (-> SocketClosed): from the None edge of the value yielded by either stream every path returns, without
+    another suspension point and without serving anything else first."""
+    run = ctx.run_body()
+    out = []
+    seen = {}
+    for b in sorted(run.reach):
+        si = run.switch_info(b)
+        if not si or si["kind"] != "discr" or si.get("adt") != "std::option::Option" or si.get("place") is None:
+            continue
+        ty = local_ty(run, {"k": "copy", "pl": si["place"]}) or ""
+        m = re.match(r"std::option::Option<(.*)>$", ty)
+        if not m:
+            continue
+        inner = m.group(1)
+        if inner.endswith("message::ContextMessage"):
+            what, want = "request-queue", "HandleClosed"
+        elif inner.startswith("std::result::Result<codec::packet::RxPacket"):
+            what, want = "packet-stream", "SocketClosed"
+        else:
+            continue
+        t = run.term(b)
+        none_succ = next((x for v, x in t["targets"] if si["variants"].get(v) == "None"), None)
+        if none_succ is None and t["otherwise"] is not None and all(si["variants"].get(v) == "Some" for v, _ in t["targets"]):
+            none_succ = t["otherwise"]
+        if none_succ is None or run.term(none_succ)["k"] == "unreachable":
+            continue
+        reg = run.reachable_from(none_succ)
+        susp = sorted(x for x in reg if run.term(x)["k"] == "yield")
+        served = sorted(x for x in reg if run.term(x)["k"] == "call" and re.search(r"Context::(handle_packet|handle_message)$", callee_name(run.term(x)) or ""))
+        vs = set()
+        for x in reg:
+            for st in run.blocks[x]["stmts"]:
+                if st["k"] == "assign":
+                    for a in run.rv_atoms(st["rv"]):
+                        if a[0] == "variant":
+                            vs.add(a[2])
+        ok = not susp and not served and want in vs
+        n = seen[what] = seen.get(what, 0) + 1
+        out.append(Inst("EXITS-END", "run:%s-ended#%d" % (what, n), ok, run.site(b),
+                        "when the %s yields None: %s" % (what.replace("-", " "), "run() returns %s without waiting for anything else" % want if ok else
+                                                        "run() can go on (suspension points %s, handler calls %s, error built: %s)" % ([run.site(x) for x in susp][:3], [run.site(x) for x in served][:3], want in vs)),
+                        "%s, at once, in every session state" % want))
+    for what in ("request-queue", "packet-stream"):
+        if what not in seen:
+            out.append(Inst("EXITS-END", "run:%s-ended:not-found" % what, False, run.site(0), "no test of the end of the %s found in run()" % what.replace("-", " "), "the end of the stream ends run()"))
+    return out
+
+
 @rule("EXITS-EXPLICIT", floor=3)
 def exits_explicit(ctx):
     """Explicit returns of the inbound/outbound handlers: Err only as `Err(disconnect.into())` in the
@@ -534,13 +617,16 @@ def _disconnect_success_edge(ctx, body, bb):
     return None
 
 
-def _payload_type_test(ctx, body, op):
+def _payload_type_test(ctx, body, op, rv=None):
     """If the operand is the value of `packet[0] >> 4 == <T as PacketID>::PACKET_ID` (or !=): (type name, value of the
     expression when the packet is of that type)."""
-    o = body.origin(op, through_calls=False)
-    if o[0] != "rv" or o[2]["rv"]["k"] != "bin" or o[2]["rv"]["op"] not in ("Eq", "Ne"):
+    if rv is None:
+        o = body.origin(op, through_calls=False)
+        if o[0] != "rv":
+            return None
+        rv = o[2]["rv"]
+    if rv["k"] != "bin" or rv["op"] not in ("Eq", "Ne"):
         return None
-    rv = o[2]["rv"]
     types = {v: k for k, v in ctx.spec("packets")["types"].items()}
     for x, y in ((rv["a"], rv["b"]), (rv["b"], rv["a"])):
         if x.get("k") == "const" and x.get("uneval") and x["uneval"]["name"] == "PACKET_ID" and isinstance(x["uneval"]["eval"], int):
@@ -642,9 +728,9 @@ def exits_ok(ctx):
                 continue
             s_ = _signal_of(x)
             is_stop = (sig[0] == "bool" and s_ == ("bool", sig[1])) or (sig[0] == "variant" and s_[0] == "variant" and s_[1] in sig[1])
-            if s_ == ("expr",) and sig[0] == "bool" and helper == "handle_message" and x.get("op") is not None:
+            if s_ == ("expr",) and sig[0] == "bool" and helper == "handle_message" and (x.get("op") is not None or x.get("rv") is not None):
                 # `Ok(packet_type == DISCONNECT)`: the exit is a stop exit exactly when the packet is a DISCONNECT
-                ty_ = _payload_type_test(ctx, hb, x["op"])
+                ty_ = _payload_type_test(ctx, hb, x.get("op"), x.get("rv"))
                 if ty_ is not None:
                     x = dict(x)
                     x["payload_test"] = ty_
@@ -765,6 +851,17 @@ def first_response(ctx):
         def _parts(c):
             return c["parts"] if c.get("kind") == "mixed" else [c]
         sc = [e for e in res if any(_sock(c1) for c1 in _parts(e["cause"]))]
+        if not sc:
+            # written out: `None => return Err(SocketClosed.into())` on the None edge of the awaited next()
+            for e in exits(ctx, b):
+                if e["kind"] != "err" or not any(a[0] == "variant" and a[2] == "SocketClosed" or (a[0] == "agg" and "SocketClosed" in str(a)) for a in e.get("atoms", ())):
+                    continue
+                for (d, s_) in dominating_edges(b, e["bb"]):
+                    si_ = b.switch_info(d)
+                    if si_ and si_["kind"] == "discr" and si_["variants"].get(next((v for v, x in b.term(d)["targets"] if x == s_), None)) == "None" \
+                            and "RxPacket" in (local_ty(b, {"k": "copy", "pl": si_["place"]}) or ""):
+                        sc.append(e)
+                        break
         out.append(Inst("FIRST-RESPONSE", "%s:stream-end" % name, len(sc) == 1, b.site(sc[0]["bb"]) if sc else b.site(0),
                         "end of stream before the first response -> %s" % ("SocketClosed" if sc else "not mapped"), "SocketClosed"))
         # every other `?` exit classified
@@ -849,6 +946,51 @@ def thresh(ctx):
         out.append(Inst("THRESH", "%s:threshold" % key, norm_ok, body.site(b), "reason %s 0x%02x" % (op, k), "failure iff reason >= 0x%02x" % thr))
         if "send_quota" not in str(body.fn["path"]) and (ts or fs) and ("Err" in ts or "Err" in fs):
             out.append(Inst("THRESH", "%s:err-side" % key, err_on_fail, body.site(b), "Err on the %s side (error types %s)" % ("failing" if err_on_fail else "wrong", et), "Err exactly when reason >= 0x80"))
+    # the same decision written as a `match` on the reason enum: per variant, Err exactly for the discriminants >= 0x80
+    for f in ctx.facts.fns:
+        if not f["file"].startswith("src/client/") or f["file"].endswith("error.rs"):
+            continue
+        body = ctx.world.body(f["path"])
+        for b in sorted(body.reach):
+            si = body.switch_info(b)
+            if not si or si["kind"] != "discr" or not re.search(r"::(Puback|Pubrec|Pubrel|Pubcomp|Suback|Unsuback|Connect|Auth)Reason$", si.get("adt") or ""):
+                continue
+            if not any(a[0] == "field" and a[2] == "reason" for a in body.atoms({"k": "copy", "pl": si["place"]})):
+                continue
+            adt = ctx.facts.adt(si["adt"])
+            stops = {a_["poll_bb"] for a_ in body.awaits()} | {x for x in body.reach if body.term(x)["k"] == "yield"}
+            succs = body.succ(b)
+            t = body.term(b)
+            listed = {v for v, _ in t["targets"]}
+            wrong = []
+            n_dec = 0
+            for v in adt["variants"]:
+                d = v["discr"]
+                tgt = next((x for val, x in t["targets"] if val == d), t["otherwise"])
+                if tgt is None:
+                    continue
+                reg = body.reachable_from(tgt, avoid=[x for x in succs if x != tgt] + list(stops))
+                vs = set()
+                for x in reg:
+                    for st in body.blocks[x]["stmts"]:
+                        if st["k"] == "assign":
+                            for a in body.rv_atoms(st["rv"]):
+                                if a[0] == "variant" and a[2] in ("Err", "Ok") and "Result" in (a[1] or "Result"):
+                                    vs.add(a[2])
+                if not vs:
+                    continue
+                n_dec += 1
+                is_err = "Err" in vs and "Ok" not in vs
+                is_ok = "Ok" in vs and "Err" not in vs
+                if (d >= thr and not is_err) or (d < thr and not is_ok):
+                    wrong.append("%s(0x%02x)->%s" % (v["name"], d, "/".join(sorted(vs))))
+            if n_dec == 0:
+                continue
+            ctx.note(body)
+            key = re.sub(r"std::convert::|codec::\w+::|rsp::|handle::", "", body.path.replace("client::", ""))
+            out.append(Inst("THRESH", "%s:match-on-%s" % (key, si["adt"].split("::")[-1]), not wrong, body.site(b),
+                            "match on the reason: %s" % ("every variant >= 0x%02x is an error, every smaller one a success" % thr if not wrong else "wrong outcome for %s" % wrong[:6]),
+                            "failure iff reason >= 0x%02x" % thr))
     return out
 
 
